@@ -124,14 +124,23 @@ func H_C12_document_chunker() {
 // in page order, whatever the heading nesting, with indices 0..n-1, unique ids and the right total.
 //
 //symgo:harness prop=C12 kernel=K2-layout-chunker
-//symgo:desc 1..2 pages, each with 0..2 headings (levels symbolic in [1,3]) and 1 paragraph (marker text) and optionally a 1-item list; default ChunkerConfig: every paragraph/list marker occurs exactly once in the chunk texts, page order preserved, indices/ids/total consistent, section path = chain of enclosing headings for the page's last heading
+//symgo:desc 1..2 pages, each with 0..2 headings (levels symbolic in [1,3]) and 1 paragraph (marker text) and optionally a 1-item list; default ChunkerConfig: every paragraph/list marker occurs exactly once in the chunk texts, page order preserved, indices/ids/total consistent, section path = chain of enclosing headings for the page's last heading; the pages carry source numbers 1,2 or 2,4 (enumerated) and every chunk's PageStart/PageEnd are source numbers whose range holds the page of each text in it
 func H_C12_layout_chunker() {
 	np := vAnyIntIn(1, 2)
 	doc := model.NewDocument()
 	var markers []string
 	var stack []vHeadingRef
 	var wantPath [][]string
+	var markerPage []int
+	// the pages carry their source page numbers: 1, 2 or - a selection such as Pages(2, 4) - 2, 4 (enumerated)
+	sparse := vAnyIntIn(0, 1) == 1
+	nums := map[int]bool{}
 	for p := 0; p < np; p++ {
+		num := p + 1
+		if sparse {
+			num = 2 * (p + 1)
+		}
+		nums[num] = true
 		page := model.NewPage(612, 792)
 		page.Layout = &model.PageLayout{}
 		nh := vAnyIntIn(0, 2)
@@ -144,14 +153,17 @@ func H_C12_layout_chunker() {
 		mk := "Para" + string(rune('A'+p))
 		page.Layout.Paragraphs = append(page.Layout.Paragraphs, model.ParagraphInfo{Text: mk + " body."})
 		markers = append(markers, mk)
+		markerPage = append(markerPage, num)
 		wantPath = append(wantPath, vPathTexts(stack))
 		if vAnyIntIn(0, 1) == 1 {
 			lk := "Item" + string(rune('A'+p))
 			page.Layout.Lists = append(page.Layout.Lists, model.ListInfo{Items: []model.ListItem{{Text: lk}}})
 			markers = append(markers, lk)
+			markerPage = append(markerPage, num)
 			wantPath = append(wantPath, vPathTexts(stack))
 		}
 		doc.AddPage(page)
+		page.Number = num
 	}
 	res, err := NewChunker().Chunk(doc)
 	vAssert("no-error", err == nil && res != nil)
@@ -175,6 +187,8 @@ func H_C12_layout_chunker() {
 		for _, c := range res.Chunks {
 			if strings.Contains(c.Text, mk) {
 				vAssert("section-path-is-enclosing-headings", vSameStrings(c.Metadata.SectionPath, wantPath[i]))
+				vAssert("page-range-names-source-pages", nums[c.Metadata.PageStart] && nums[c.Metadata.PageEnd])
+				vAssert("page-range-holds-the-texts-source-page", c.Metadata.PageStart <= markerPage[i] && markerPage[i] <= c.Metadata.PageEnd)
 			}
 		}
 	}
